@@ -36,7 +36,7 @@ import (
 //   "race": free-running -race complement (not the deciding step).
 
 // the operations of the statement
-var c14Ops = []string{"Parse", "ParseDF", "ToPostgres", "ToParam", "Render", "RenderParam", "String", "GoString", "Marshal", "Unmarshal", "Validate"}
+var c14Ops = []string{"Parse", "ParseDF", "ToPostgres", "ToParam", "Render", "RenderParam", "String", "GoString", "Marshal", "Unmarshal", "Validate", "Customise"}
 
 // corpus: every operator and every renderer branch occurs
 var c14Corpus = []string{
@@ -49,6 +49,8 @@ var c14Corpus = []string{
 	// whitespace, case-folded text, column + shape) would confuse
 	`a:1 OR b:2 AND c:3`, `(a:1 OR b:2) AND c:3`, `n:7`, `n:"7"`, `t:"x  y"`, `t:"x y"`, `k:V`, `k:v`,
 	`p:{1 TO 5}`, `p:{foo TO bar}`, `p:[1 TO 5]`, `r:(u OR v)`, `r:u OR r:v`,
+	// a long value list
+	`k:(1 OR 2 OR 3 OR 4 OR 5 OR 6 OR 7 OR 8 OR 9 OR 10 OR 11)`,
 	// repeated values inside one list
 	`a:(x OR y OR x OR z)`, `a:(1 OR 2 OR 2 OR 3 OR 4)`,
 }
@@ -58,6 +60,9 @@ var c14SchedQueries = []string{
 	`a:(x OR y) AND NOT b:[1 TO 5] AND c:w*`,
 	`+p:>=2 AND -q:"r s" AND u:/v.w/ AND (zz:[* TO 9] OR yy:{k TO m})`,
 	`a:(x OR y)`,
+	// two different long value lists on the same column (shared buffers sized for "big" lists)
+	`k:(1 OR 2 OR 3 OR 4 OR 5 OR 6 OR 7 OR 8 OR 9 OR 10 OR 11) AND z:1`,
+	`k:(a OR b OR c OR d OR e OR f OR g OR h OR i OR j OR l OR m) AND z:"two"`,
 }
 
 type opInput struct {
@@ -168,6 +173,18 @@ func runOp(op, q string, shared *expr.Expression) (out string) {
 				return
 			}
 			out = fmt.Sprint(expr.Validate(shared))
+		case "Customise":
+			// what the README tells users to do: take a driver, put their own functions into its map,
+			// render with it. It must not change what any other driver (or ToPostgres) does.
+			if shared == nil {
+				out = "n/a"
+				return
+			}
+			d := driver.NewPostgresDriver()
+			d.RenderFNs[expr.Equals] = func(l, r string) (string, error) { return l + " == " + r, nil }
+			d.RenderFNs[expr.Fuzzy] = func(l, r string) (string, error) { return "fuzzy(" + l + ")", nil }
+			s, err := d.Render(shared)
+			out = fmt.Sprintf("%q | %v", s, err)
 		default:
 			panic("bad op " + op)
 		}
@@ -286,8 +303,9 @@ func init() {
 			}
 			// scheduler. unit = explore|<bound>|<granularity>|<query>|<shard>|<of>|<ops...>
 			pairs := func(f func(a, b string)) {
-				for _, a := range c14Ops {
-					for _, b := range c14Ops {
+				// "Customise" takes part in the call sequences only
+				for _, a := range c14Ops[:11] {
+					for _, b := range c14Ops[:11] {
 						f(a, b)
 					}
 				}
@@ -309,6 +327,11 @@ func init() {
 					if tier == "thorough" || (strings.HasPrefix(a, "To") && strings.HasPrefix(b, "To")) {
 						us = append(us, core.Unit{Name: fmt.Sprintf("explore|1|full|0|0|1|%s@1|%s@0|%s@0", a, b, a), Weight: 4})
 					}
+				}
+			}
+			for _, a := range []string{"ToPostgres", "ToParam", "Render", "RenderParam", "Marshal"} {
+				for _, b := range []string{"ToPostgres", "ToParam", "Render", "RenderParam", "Marshal"} {
+					us = append(us, core.Unit{Name: fmt.Sprintf("explore|1|full|0|0|1|%s@3|%s@4", a, b), Weight: 3})
 				}
 			}
 			trip := [][]string{{"ToPostgres", "ToParam", "Parse"}, {"Render", "RenderParam", "String"}, {"Marshal", "Unmarshal", "Validate"}}
